@@ -99,6 +99,9 @@ func c10Shapes() map[string]chain.Params {
 		p.FoundH = 2
 		s[k] = p
 	}
+	// v2 allowed early, the ephemeral-output fix height never reached: every v2 block is in the era in which claims about
+	// parents created in the same block are taken on trust
+	s["ephlate"] = chain.Params{MatDelay: 1, AllowH: 1, RequireH: 7, EphH: 100, FoundH: 2, Reward: 500, GenSC: s["mixed"].GenSC, GenSF: s["mixed"].GenSF}
 	return s
 }
 
@@ -388,14 +391,15 @@ func runLedger(c *vlib.Ctx, exts []ext) (*ledgerStats, chain.RunStats) {
 		num   int
 	}
 	runs := []run{
-		{"v1only", chain.AllTemplates, c.Pick(12, 120)},
-		{"mixed", chain.AllTemplates, c.Pick(12, 120)},
-		{"v2only", chain.AllTemplates, c.Pick(12, 120)},
+		{"v1only", chain.AllTemplates, c.Pick(10, 120)},
+		{"mixed", chain.AllTemplates, c.Pick(10, 120)},
+		{"v2only", chain.AllTemplates, c.Pick(10, 120)},
+		{"ephlate", []string{"pay", "pay2", "sf"}, c.Pick(8, 80)},
 		{"v1only", []string{"form1", "rev1", "prove1"}, c.Pick(6, 60)},
 		{"v2only", []string{"form2", "rev2", "res2", "renew2"}, c.Pick(6, 60)},
 	}
 	// every block gets 1/stride of its applicable entries; the phase rotates so that all entries are used across blocks
-	stride := c.Pick(6, 2)
+	stride := c.Pick(8, 2)
 	var wg sync.WaitGroup
 	var tmu sync.Mutex
 	for _, rn := range runs {
@@ -424,7 +428,10 @@ func runLedger(c *vlib.Ctx, exts []ext) (*ledgerStats, chain.RunStats) {
 					mutateBlock(c, st, exts, sim, g, keys, cfg, beh, i, s.Txs, stride, phase)
 				},
 			}
-			if len(rn.tpl) < len(chain.AllTemplates) {
+			if rn.shape == "ephlate" {
+				opts.NoFocus = true
+				cfg.MaxTxns = 3
+			} else if len(rn.tpl) < len(chain.AllTemplates) {
 				opts.NoFocus = true
 				cfg.Pay1, cfg.Sizes, cfg.FormRH, cfg.PayAmts, cfg.Fees, cfg.MaxTxns = []int{256411}, []int{200}, [][2]int{{250024, 25}}, []int{599}, []int{0}, 3
 			}
